@@ -22,8 +22,13 @@ VE = (TrieValidationError, EthValidationError)
 NIB = (TypeError, ValueError)
 
 
-def bad_bytes():
-    return [("str", "ab"), ("int", 5), ("none", None), ("bytearray", bytearray(b"ab")), ("list", [1, 2]), ("memoryview", memoryview(b"ab"))]
+def bad_bytes(key=None):
+    out = [("str", "ab"), ("int", 5), ("none", None), ("bytearray", bytearray(b"ab")), ("list", [1, 2]), ("memoryview", memoryview(b"ab"))]
+    if key is not None:
+        # ill-typed objects that compare EQUAL to a valid key (bytearray(K) == K): refused all the same
+        out += [("bytearray_of_a_valid_key", bytearray(key)), ("memoryview_of_a_valid_key", memoryview(key)), ("list_of_a_valid_key", list(key)),
+                ("tuple_of_a_valid_key", tuple(key))]
+    return out
 
 
 def bad_nibbles():
@@ -37,8 +42,13 @@ class Acc:
         self.viols = []
         self.stats = collections.Counter()
 
-    def call(self, name, thunk, expected, state_fn, family):
+    def call(self, name, thunk, expected, state_fn, family, prime=None):
         self.evals += 1
+        if prime is not None:
+            try:
+                prime()  # a valid call on the same object right before the ill-formed one
+            except KeyError:
+                pass
         before = state_fn()
         try:
             r = thunk()
@@ -62,13 +72,14 @@ class Acc:
 
 # ------------------------------------------------------------------------------------------------ hexary
 def hexary_calls(acc, t, state_fn, key, where):
-    for tag, b in bad_bytes():
+    prime = lambda: (t.get(key), t.exists(key))  # noqa
+    for tag, b in bad_bytes(key):
         for name, th in ((f"get({tag})", lambda b=b: t.get(b)), (f"[{tag}]", lambda b=b: t[b]), (f"exists({tag})", lambda b=b: t.exists(b)),
                          (f"{tag} in trie", lambda b=b: b in t), (f"set({tag}, v)", lambda b=b: t.set(b, b"v")),
                          (f"[{tag}]=v", lambda b=b: t.__setitem__(b, b"v")), (f"delete({tag})", lambda b=b: t.delete(b)),
                          (f"del [{tag}]", lambda b=b: t.__delitem__(b)), (f"get_proof({tag})", lambda b=b: t.get_proof(b)),
                          (f"set(k, {tag})", lambda b=b: t.set(key, b)), (f"[k]={tag}", lambda b=b: t.__setitem__(key, b))):
-            acc.call(f"HexaryTrie{where}.{name}", th, VE, state_fn, "hexary_bytes")
+            acc.call(f"HexaryTrie{where}.{name}", th, VE, state_fn, "hexary_bytes", prime)
         acc.call(f"HexaryTrie(db, root={tag})", lambda b=b: HexaryTrie({}, b), VE, state_fn, "hexary_root")
         acc.call(f"HexaryTrie.get_from_proof(root, {tag}, proof)", lambda b=b: HexaryTrie.get_from_proof(t.root_hash, b, []), VE, state_fn, "hexary_bytes")
         acc.call(f"HexaryTrie.get_from_proof({tag}, key, proof)", lambda b=b: HexaryTrie.get_from_proof(b, key, []), VE, state_fn, "hexary_root")
@@ -120,13 +131,14 @@ def work_binary(snap, model, keys):
 
     def st():
         return (t.root_hash, sorted(t.db.items()))
-    for tag, b in bad_bytes():
+    prime = lambda: (t.get(key), t.exists(key))  # noqa
+    for tag, b in bad_bytes(key):
         for name, th in ((f"get({tag})", lambda b=b: t.get(b)), (f"[{tag}]", lambda b=b: t[b]), (f"exists({tag})", lambda b=b: t.exists(b)),
                          (f"{tag} in trie", lambda b=b: b in t), (f"set({tag}, v)", lambda b=b: t.set(b, b"v")),
                          (f"[{tag}]=v", lambda b=b: t.__setitem__(b, b"v")), (f"delete({tag})", lambda b=b: t.delete(b)),
                          (f"del [{tag}]", lambda b=b: t.__delitem__(b)), (f"delete_subtrie({tag})", lambda b=b: t.delete_subtrie(b)),
                          (f"set(k, {tag})", lambda b=b: t.set(key, b)), (f"[k]={tag}", lambda b=b: t.__setitem__(key, b))):
-            acc.call(f"BinaryTrie.{name}", th, VE, st, "binary_bytes")
+            acc.call(f"BinaryTrie.{name}", th, VE, st, "binary_bytes", prime)
         acc.call(f"BinaryTrie(db, root={tag})", lambda b=b: BinaryTrie({}, b), VE, st, "binary_root")
         acc.call(f"check_if_branch_exist(db, root, {tag})", lambda b=b: check_if_branch_exist(t.db, t.root_hash, b), VE, st, "branch_helpers")
         acc.call(f"get_branch(db, root, {tag})", lambda b=b: get_branch(t.db, t.root_hash, b), VE, st, "branch_helpers")
@@ -148,31 +160,38 @@ def work_smt(snap, model, sysm_kw):
     key = sysm.keys[0]
     good_branch = tuple(b"\x00" * 32 for _ in range(8 * n))
 
+    caller_db = {}  # a database handed to from_db by the caller: a refused call must not have touched it
+
     def st():
-        return (t.root_hash, sorted(t.db.items()))
-    badkeys = bad_bytes() + [("empty", b""), ("too_long", b"\x00" * (n + 1))] + ([("too_short", b"\x00" * (n - 1))] if n > 1 else [])
+        return (t.root_hash, sorted(t.db.items()), sorted(caller_db.items()))
+
+    def prime():
+        return (t.get(key), t.branch(key), t.exists(key))
+    badkeys = bad_bytes(key) + [("empty", b""), ("too_long", b"\x00" * (n + 1))] + ([("too_short", b"\x00" * (n - 1))] if n > 1 else [])
     for tag, b in badkeys:
         for name, th in ((f"get({tag})", lambda b=b: t.get(b)), (f"[{tag}]", lambda b=b: t[b]), (f"exists({tag})", lambda b=b: t.exists(b)),
                          (f"{tag} in tree", lambda b=b: b in t), (f"set({tag}, v)", lambda b=b: t.set(b, b"v")),
                          (f"[{tag}]=v", lambda b=b: t.__setitem__(b, b"v")), (f"delete({tag})", lambda b=b: t.delete(b)),
                          (f"del [{tag}]", lambda b=b: t.__delitem__(b)), (f"branch({tag})", lambda b=b: t.branch(b))):
-            acc.call(f"SparseMerkleTree.{name}", th, VE, st, "smt_key")
+            acc.call(f"SparseMerkleTree.{name}", th, VE, st, "smt_key", prime)
     for tag, b in bad_bytes():
         acc.call(f"SparseMerkleTree.set(k, {tag})", lambda b=b: t.set(key, b), VE, st, "smt_value")
         acc.call(f"SparseMerkleTree[k]={tag}", lambda b=b: t.__setitem__(key, b), VE, st, "smt_value")
         acc.call(f"SparseMerkleTree.from_db(db, {tag})", lambda b=b: SparseMerkleTree.from_db(dict(t.db), b, key_size=n), VE, st, "smt_root")
+        acc.call(f"SparseMerkleTree.from_db(empty db, {tag})", lambda b=b: SparseMerkleTree.from_db(caller_db, b, key_size=n, default=b"\x09"), VE, st, "smt_root")
         acc.call(f"calc_root({tag}, v, branch)", lambda b=b: calc_root(b, b"v", good_branch), VE, st, "calc_root")
         acc.call(f"calc_root(k, {tag}, branch)", lambda b=b: calc_root(key, b, good_branch), VE, st, "calc_root")
         acc.call(f"SparseMerkleProof({tag}, v, branch)", lambda b=b: SparseMerkleProof(b, b"v", good_branch), VE, st, "proof_ctor")
         acc.call(f"SparseMerkleProof(k, {tag}, branch)", lambda b=b: SparseMerkleProof(key, b, good_branch), VE, st, "proof_ctor")
     for tag, r in (("31 bytes", b"\x00" * 31), ("33 bytes", b"\x00" * 33), ("empty", b"")):
         acc.call(f"SparseMerkleTree.from_db(db, root of {tag})", lambda r=r: SparseMerkleTree.from_db(dict(t.db), r, key_size=n), VE, st, "smt_root")
+        acc.call(f"SparseMerkleTree.from_db(empty db, root of {tag})", lambda r=r: SparseMerkleTree.from_db(caller_db, r, key_size=n, default=b"\x09"), VE, st, "smt_root")
     for tag, br in (("too short", good_branch[:-1]), ("too long", good_branch + (b"\x00" * 32,)), ("empty", ())):
         acc.call(f"calc_root(k, v, branch {tag})", lambda br=br: calc_root(key, b"v", br), VE, st, "calc_root")
         acc.call(f"SparseMerkleProof(k, v, branch {tag})", lambda br=br: SparseMerkleProof(key, b"v", br), VE, st, "proof_ctor")
     for ks in (0, 33, -1, 100):
         acc.call(f"SparseMerkleTree(key_size={ks})", lambda ks=ks: SparseMerkleTree(key_size=ks), VE, st, "smt_key_size")
-        acc.call(f"SparseMerkleTree.from_db(..., key_size={ks})", lambda ks=ks: SparseMerkleTree.from_db({}, t.root_hash, key_size=ks), VE, st, "smt_key_size")
+        acc.call(f"SparseMerkleTree.from_db(..., key_size={ks})", lambda ks=ks: SparseMerkleTree.from_db(caller_db, t.root_hash, key_size=ks), VE, st, "smt_key_size")
     # a live proof: update with an ill-typed / ill-sized key leaves it unchanged
     p = SparseMerkleProof(key, b"v", good_branch)
 
